@@ -103,7 +103,7 @@ func checkC07(ctx *Ctx) *Result {
 						g1, d1 = false, fmt.Sprintf("field %s written without holding the write lock (state %s) @%s", e.Field, e.State, e.Eff.At)
 					}
 				case "call":
-					if e.State != "U" {
+					if e.State != "U" && callMayReachUserCode(ctx, e.Eff) {
 						g4, d4 = false, fmt.Sprintf("%s %s while the lock is held @%s", e.Eff.Kind, e.Eff.Name, e.Eff.At)
 					}
 				}
@@ -219,6 +219,39 @@ func checkC07(ctx *Ctx) *Result {
 		}, "writes memory that is shared with other requests or with the published configuration")
 	}
 	return r
+}
+
+// callMayReachUserCode: an interface or dynamic call, or a module function
+// from which one (or a mutex operation: re-entrancy) is reachable. Holding the
+// lock across purely internal code only lengthens the critical section.
+func callMayReachUserCode(ctx *Ctx, e Effect) bool {
+	if e.Kind != "call" {
+		return true
+	}
+	we := ctx.WE()
+	for _, fn := range ctx.P.Funcs {
+		if funcName(fn) != e.Name {
+			continue
+		}
+		for _, g := range we.Reach(fn) {
+			for _, c := range we.extCalls[g] {
+				if strings.HasPrefix(c, "invoke ") || c == "dynamic call" || strings.Contains(c, "sync.RWMutex") || strings.Contains(c, "sync.Mutex") {
+					if c == "invoke error.Error" {
+						continue
+					}
+					return true
+				}
+			}
+		}
+		return false
+	}
+	// not a module function with a body
+	for _, pre := range purePrefixes {
+		if strings.HasPrefix(e.Name, pre) {
+			return false
+		}
+	}
+	return true
 }
 
 // checkWrites applies a whitelist to the final roots of every mutation site
@@ -613,11 +646,11 @@ func checkDebugColours(ctx *Ctx, r *Result) {
 	}
 	var off, on []*ReqPath
 	for _, rp := range rt.Paths {
-		if rp.A[aDebug] != 0 && !isPreflightAtoms(rp) {
+		if rp.A[aDebug] != 0 && !isPreflightPath(rp) {
 			r.fail("R9.3", rp.Describe(), "", "debug mode influences a non-preflight path")
 			continue
 		}
-		if !isPreflightAtoms(rp) {
+		if !isPreflightPath(rp) {
 			continue
 		}
 		if rp.A[aDebug] != 1 {
@@ -868,6 +901,7 @@ func checkC12(ctx *Ctx) *Result {
 				case (w.Op == "add" || w.Op == "set") && strings.HasPrefix(w.Tag, "const("):
 				case (w.Op == "add" || w.Op == "set") && (w.Tag == "cfg.aceh"): // a string
 				case w.Op == "assign" && strings.HasPrefix(w.Tag, "hdr1("):
+				case w.Op == "append" && strings.HasPrefix(w.Tag, "append(old("+w.Key+"), const("): // what Header.Add does
 				default:
 					bad = "a value the wrapped handler could mutate in place is shared: " + w.String()
 				}
